@@ -4,7 +4,7 @@ import os, json, subprocess, time
 def run_harness(cfg, prop, extra_args=(), timeout=3000, mem_kb=None):
     root = cfg["root"]
     out = os.path.join(root, "cases")
-    cmd = [os.path.join(root, "harness/target/release/vh"), prop, str(cfg["seed"]), cfg["tier"], out] + list(extra_args)
+    cmd = [os.path.join(root, "harness/target/release/vh_" + prop), str(cfg["seed"]), cfg["tier"], out] + list(extra_args)
     pre = None
     p = subprocess.run(cmd, stdout=subprocess.PIPE, stderr=subprocess.STDOUT, timeout=timeout)
     log = p.stdout.decode("utf-8", "replace")
@@ -17,7 +17,7 @@ def run_model(cfg, prop, infile=None, outfile=None, timeout=3000):
     infile = infile or os.path.join(root, "cases", prop + ".in")
     outfile = outfile or os.path.join(root, "cases", prop + ".model")
     with open(infile, "rb") as fi, open(outfile, "wb") as fo:
-        p = subprocess.run([os.path.join(root, "ocaml/runner"), prop], stdin=fi, stdout=fo, stderr=subprocess.PIPE, timeout=timeout)
+        p = subprocess.run([os.path.join(root, "ocaml/bin/runner_" + prop)], stdin=fi, stdout=fo, stderr=subprocess.PIPE, timeout=timeout)
     return p.returncode, p.stderr.decode("utf-8", "replace")
 
 def diff_lines(cfg, prop, limit=10):
